@@ -371,7 +371,8 @@ def run(tier):
             ctx.add_solver_stats(r["stats"])
         for sig, what, witness in r["sigs"]:
             if sig.startswith("harness"):
-                raise HarnessError(f"{sig}: {what}")
+                ctx.harness_gap(f"{sig}: {what}")
+                continue
             ctx.violation(sig, what, witness or {})
             ctx.stats["traces_validated_against_impl"] += 1
     for r in results[:: max(1, len(results) // 8)]:
